@@ -15,7 +15,10 @@ def job_for(contract, mode, inputs=None):
     job = {
         'repo': REPO, 'verif': VERIF, 'target': contract.target, 'mode': mode,
         'params': dict(contract.params), 'requires': list(contract.requires),
-        'ensures': list(contract.ensures), 'raises': contract.raises,
+        # clauses stated against an independent executable specification: evaluated on the real code
+        # only (the symbolic side cannot run the specification)
+        'ensures': list(contract.ensures) + list(contract.ghost.get('concrete_ensures', [])),
+        'raises': contract.raises,
         'spec_modules': contract.ghost.get('spec_modules', ['spec.core', 'spec.repeat']),
         'search': contract.ghost.get('search', {}),
     }
